@@ -5,6 +5,7 @@ canonical gauge / normalised + whether each virtual leg is sorted / bunched by c
 (c07_dense): denoted state incl. phase and norm, psi.norm, and - when in canonical form - norm_test, Schmidt values,
 entropies and spectra.  Finite / segment and infinite MPS share the alphabet."""
 import copy
+import re
 import warnings
 
 import numpy as np
@@ -14,6 +15,9 @@ from checks import c07_univ as U
 
 TOL = 1e-9
 TOL_INF = 2e-6  # canonical_form_infinite1 documents a loss of precision to half the machine precision
+
+
+REFUSED = ('ValueError', 'not-converged-at-rounding-level')
 
 
 class SkipSeed(Exception):
@@ -401,7 +405,20 @@ def _apply(psi, model, op):
         meth = psi.canonical_form_infinite1 if kind == 'canon1' else psi.canonical_form_infinite2
         with warnings.catch_warnings():
             warnings.simplefilter('ignore')
-            run(lambda: meth(renormalize=op[1]))
+            def call():
+                # canonical_form_infinite2 gives up loudly ("did not converge up to tol=1e-15 ... Consider increasing
+                # the tolerance") when its fixed-point error stalls at rounding level: a refusal, not a wrong state.
+                # Only a stall below 1e-13 is accepted as that; anything larger is reported like any other exception.
+                try:
+                    return meth(renormalize=op[1])
+                except RuntimeError as e:
+                    m = re.search(r'did not converge up to tol=.*Final error after \d+ iterations: ([-+.0-9eE]+)\. ', str(e))
+                    if m is not None and float(m.group(1)) < 1.0e-13:
+                        return REFUSED[1]
+                    raise
+
+            if run(call) == REFUSED[1]:
+                return psi, REFUSED[1]
         if op[1]:
             model.scale = model.scale / eta0
         else:
@@ -502,11 +519,11 @@ def replay_history(seed, ops):
         soft = observe(psi, model, window)
         outcome = 'seed'
         for op in ops:
-            if outcome == 'ValueError':
+            if outcome in REFUSED:
                 break
             step = op[0]
             psi, outcome = apply(psi, model, op)
-            if outcome != 'ValueError':
+            if outcome not in REFUSED:
                 soft = soft + observe(psi, model, window)
         if soft:
             raise soft[0]
@@ -549,7 +566,7 @@ def bfs(seed, depth, tier, merge=True):
                 soft = []
                 try:
                     psi, outcome = apply(psi, model, op)
-                    if outcome != 'ValueError':
+                    if outcome not in REFUSED:
                         soft = observe(psi, model, window)
                 except Bad as e:
                     soft = [e]
@@ -561,7 +578,7 @@ def bfs(seed, depth, tier, merge=True):
                 if outcome is None:
                     continue
                 outcomes.add('%s:%s' % (op[0], outcome))
-                if outcome == 'ValueError':
+                if outcome in REFUSED:
                     continue
                 st = abstract_state(psi, model)
                 sample = h
